@@ -142,7 +142,18 @@ func expr(v ssa.Value, d int) string {
 }
 
 // intConst returns the integer value of a constant (through conversions).
+// staticParam: see pathx.StaticParam (set per run in NewCtx).
+var staticParam map[*ssa.Parameter]ssa.Value
+
 func intConst(v ssa.Value) (int64, bool) {
+	// (a parameter that every caller binds to the same constant is that constant)
+	if pr, isP := strip(v).(*ssa.Parameter); isP {
+		if b, has := staticParam[pr]; has {
+			if _, isK := strip(b).(*ssa.Const); isK {
+				v = b
+			}
+		}
+	}
 	c, ok := strip(v).(*ssa.Const)
 	if !ok || c.Value == nil || c.Value.Kind() != constant.Int {
 		return 0, false
